@@ -16,7 +16,11 @@
      6. observers as functions of the abstract content; [equivalent]
      7. C11: round trip
      8. C11: same future (ring simulation)
-     9. C12: what the loaded content is; the loaded state is reachable without FromJSON *)
+     9. C12: null/[]/{}; the loaded state is reachable without FromJSON; what the loaded content is
+    10. the ring in detail; refuted statements (state equality of trees / ring, PriorityQueue order)
+    11. the invariant [jinv] is preserved by every step
+    12. C11, same future for ALL kinds: the observational equivalence [oeq] preserved by [step]
+    13. C11 round trip, strongest unconditional form *)
 From Coq Require Import ZArith List Lia Bool Arith Sorted SetoidList Permutation.
 From Gods Require Import Common.Cmp Common.ListAux Spec.SeqSpec Spec.MapSpec Spec.SetSpec Spec.FifoSpec Spec.BagSpec
   Model.Ops Model.Lists Model.Iter Model.Machine.
@@ -1791,3 +1795,789 @@ Proof.
   split; [rewrite RP.renqs_max; reflexivity|].
   cbn [values_of]. rewrite RP.renqs_abs by exact Hi0. rewrite RP.rinit_abs. reflexivity.
 Qed.
+
+(* maps and search trees: the abstract map after putting the members one by one (keys equal under
+   the container's comparator are one key, the last member wins), sorted by that comparator *)
+Theorem C12_denotes_map_proof : forall c s kvs, config_ok c -> MM.map_kind (ckind c) = true -> s <> StCrash ->
+  let s' := fst (from_json c (DObj kvs) s) in
+  let h := MM.puts (MM.json_entries c kvs) in
+  snd (from_json c (DObj kvs) s) = true /\
+  MM.minv c s' /\
+  MM.mabs c s' = mrun (MM.cmp_for c) h /\
+  ksorted (MM.cmp_for c) (MM.mabs c s') /\
+  (forall k, get_of c s' k = oopt (option_map snd (last_live (MM.cmp_for c) (rev h) k))) /\
+  size_of c s' = Z.of_nat (length (mrun (MM.cmp_for c) h)) /\
+  (ckind c <> LinkedHashMap -> entries_of c s' = mrun (MM.cmp_for c) h) /\
+  (ckind c = HashMap -> entries_of c s' = sort_entries kvs).
+Proof.
+  intros c s kvs Hc K Hs s' h. pose proof (config_ok_valid c Hc K) as Hv.
+  assert (Hkv : is_kv (ckind c) = true) by (apply MM.Generic.is_kv_map_kind; exact K).
+  assert (Es : from_json c (DObj kvs) s = (put_entries c (MM.json_entries c kvs) (init c), true)).
+  { rewrite (from_json_body_eq c _ s Hs). unfold from_json_body. rewrite Hkv. reflexivity. }
+  unfold s'. rewrite Es. cbn [fst snd]. split; [reflexivity|].
+  destruct (m_inv_init c Hv) as [Hi0 Ha0].
+  destruct (m_put_entries_sim c (MM.json_entries c kvs) (init c) Hv Hi0) as [Hi' Ha'].
+  rewrite Ha0 in Ha'. fold h in Ha'. change (fold_left (mstep (MM.cmp_for c)) h []) with (mrun (MM.cmp_for c) h) in Ha'.
+  split; [exact Hi'|]. split; [exact Ha'|].
+  split; [apply m_abs_sorted; assumption|].
+  split; [intros k; rewrite (m_get_abs c _ k Hv Hi'), Ha', (mrun_last_live (MM.cmp_for c) (MM.cmp_for_SWO c)); reflexivity|].
+  split; [rewrite (m_size_abs c _ Hv Hi'), Ha'; reflexivity|].
+  split; [intros Kl; rewrite <- (m_abs_entries c _ Hi' Kl); exact Ha'|].
+  intros Kh. assert (Kl : ckind c <> LinkedHashMap) by (rewrite Kh; discriminate).
+  rewrite <- (m_abs_entries c _ Hi' Kl), Ha'. unfold h, MM.json_entries, MM.cmp_for, mrun. rewrite Kh.
+  rewrite <- (inss_mstep Z.compare). rewrite <- sort_entries_inss. apply sort_entries_idem.
+Qed.
+
+(* ---------- LinkedHashMap: first position, last value ---------- *)
+Lemma inss_keys : forall es acc k, ksorted Z.compare acc ->
+  (In k (map fst (inss Z.compare es acc)) <-> In k (map fst acc) \/ In k (map fst es)).
+Proof.
+  induction es as [|[k0 v0] es IH]; intros acc k Hs; [cbn [inss fold_left map In]; tauto|].
+  cbn [inss fold_left fst snd]. fold (inss Z.compare es (ins_list Z.compare k0 v0 acc)).
+  rewrite IH by (apply (ins_list_sorted Z.compare Zcompare_SWO); exact Hs).
+  change (ins_list Z.compare k0 v0 acc) with (hput k0 v0 acc). rewrite (MM.keys_hput k0 v0 acc k Hs).
+  cbn [map fst In]. split; [intros [[E|H]|H]|intros [H|[E|H]]]; auto.
+Qed.
+
+Lemma sort_entries_keys : forall es k, In k (map fst (sort_entries es)) <-> In k (map fst es).
+Proof.
+  intros es k. rewrite sort_entries_inss, inss_keys by constructor. cbn [map In]. tauto.
+Qed.
+
+Lemma hget_some_iff_key : forall k l, (exists v, hget k l = Some v) <-> In k (map fst l).
+Proof.
+  intros k l. rewrite <- SP.sp_hmem_In, SP.sp_hmem_hget. destruct (hget k l) as [v|]; split.
+  - reflexivity.
+  - intros _. exists v. reflexivity.
+  - intros [v H]. discriminate H.
+  - discriminate.
+Qed.
+
+Definition last_value (all : list (Z * Z)) (k : Z) : Z :=
+  match hget k (sort_entries all) with Some v => v | None => 0 end.
+
+Lemma dedup_last_In : forall all es seen k v, In (k, v) (dedup_last es seen all) ->
+  In k (map fst es) /\ ~ In k seen /\ v = last_value all k.
+Proof.
+  intros all. induction es as [|[k0 v0] es IH]; intros seen k v H; [destruct H|].
+  cbn [dedup_last] in H. destruct (existsb (Z.eqb k0) seen) eqn:X.
+  - destruct (IH seen k v H) as (H1 & H2 & H3). split; [right; exact H1|]. split; assumption.
+  - destruct H as [E|H].
+    + inversion E. subst. split; [left; reflexivity|]. split; [|reflexivity].
+      intros Hin. assert (existsb (Z.eqb k) seen = true); [|congruence].
+      apply existsb_exists. exists k. split; [exact Hin|apply Z.eqb_refl].
+    + destruct (IH (k0 :: seen) k v H) as (H1 & H2 & H3). split; [right; exact H1|].
+      split; [|exact H3]. intros Hin. apply H2. right. exact Hin.
+Qed.
+
+Lemma dedup_last_keys : forall all es seen k, In k (map fst es) -> ~ In k seen ->
+  In k (map fst (dedup_last es seen all)).
+Proof.
+  intros all. induction es as [|[k0 v0] es IH]; intros seen k H Hn; [destruct H|].
+  cbn [dedup_last]. destruct (existsb (Z.eqb k0) seen) eqn:X.
+  - destruct H as [E|H]; [|apply IH; assumption]. cbn [fst] in E. subst k0. exfalso. apply Hn.
+    apply existsb_exists in X. destruct X as (y & Hy & He). apply Z.eqb_eq in He. subst y. exact Hy.
+  - cbn [map fst]. destruct (Z.eq_dec k0 k) as [E|Ne]; [left; exact E|]. right.
+    destruct H as [E|H]; [contradiction|]. apply IH; [exact H|]. intros [E|Hin]; contradiction.
+Qed.
+
+Lemma dedup_last_nodup : forall all es seen, NoDup (map fst (dedup_last es seen all)).
+Proof.
+  intros all. induction es as [|[k0 v0] es IH]; intros seen; [constructor|].
+  cbn [dedup_last]. destruct (existsb (Z.eqb k0) seen); [apply IH|].
+  cbn [map fst]. constructor; [|apply IH].
+  intros Hin. apply in_map_iff in Hin. destruct Hin as ([k v] & E & H). cbn [fst] in E. subst k.
+  apply dedup_last_In in H. destruct H as (_ & Hn & _). apply Hn. left. reflexivity.
+Qed.
+
+Lemma NoDup_keys_kinj : forall l : list (Z * Z), NoDup (map fst l) -> kinj Z.compare (fun e => In e l).
+Proof.
+  induction l as [|x l IH]; intros Hnd e1 e2 H1 H2 E; [destruct H1|].
+  apply Z.compare_eq in E. cbn [map] in Hnd. apply NoDup_cons_iff in Hnd. destruct Hnd as [Hx Hnd].
+  destruct H1 as [<-|H1], H2 as [<-|H2].
+  - reflexivity.
+  - exfalso. apply Hx. rewrite E. apply in_map. exact H2.
+  - exfalso. apply Hx. rewrite <- E. apply in_map. exact H1.
+  - apply (IH Hnd); [exact H1|exact H2|]. rewrite E. apply Z.compare_refl.
+Qed.
+
+(* the table built from dedup_last answers every key with its LAST value in the document *)
+Lemma hget_dedup_last : forall kvs k,
+  hget k (sort_entries (dedup_last kvs [] kvs)) = hget k (sort_entries kvs).
+Proof.
+  intros kvs k. set (D := dedup_last kvs [] kvs).
+  assert (HD : forall e, In e (sort_entries D) <-> In e D).
+  { apply sort_entries_In. apply NoDup_keys_kinj. apply dedup_last_nodup. }
+  pose proof (sort_entries_sorted D) as HsD.
+  destruct (hget k (sort_entries kvs)) as [v0|] eqn:G.
+  - apply SP.sp_hget_In; [exact HsD|]. apply HD.
+    assert (Hk : In k (map fst kvs)).
+    { apply sort_entries_keys. apply hget_some_iff_key. exists v0. exact G. }
+    pose proof (dedup_last_keys kvs kvs [] k Hk (fun F => F)) as Hin.
+    apply in_map_iff in Hin. destruct Hin as ([k' v'] & E & H). cbn [fst] in E. subst k'.
+    pose proof (dedup_last_In kvs kvs [] k v' H) as (_ & _ & Ev). unfold last_value in Ev. rewrite G in Ev.
+    subst v'. exact H.
+  - destruct (hget k (sort_entries D)) as [v|] eqn:G'; [|reflexivity]. exfalso.
+    apply SP.sp_hget_In in G'; [|exact HsD]. apply HD in G'.
+    apply dedup_last_In in G'. destruct G' as (Hk & _ & _).
+    apply sort_entries_keys in Hk. apply hget_some_iff_key in Hk. destruct Hk as [v1 Hv1]. congruence.
+Qed.
+
+Theorem C12_denotes_linkedmap_proof : forall c s kvs, ckind c = LinkedHashMap -> s <> StCrash ->
+  let s' := fst (from_json c (DObj kvs) s) in
+  keys_of c s' = fold_left order_step (map EIns (map fst kvs)) [] /\
+  (forall k, get_of c s' k = oopt (hget k (sort_entries kvs))).
+Proof.
+  intros c s kvs K Hs s'.
+  assert (Hc : config_ok c) by (split; intros F; rewrite F in K; discriminate K).
+  assert (Hok : snd (from_json c (DObj kvs) s) = true).
+  { rewrite (from_json_ok_iff c _ s Hs). unfold accepts. rewrite K. reflexivity. }
+  assert (Es : s' = run c [FromJSON (DObj kvs)]) by (apply loaded_is_run1; assumption).
+  split.
+  - assert (Kl : LP.is_linked_kind (ckind c) = true) by (rewrite K; reflexivity).
+    destruct (LP.linked_run c [FromJSON (DObj kvs)] Kl) as [Il O]. rewrite <- Es in Il, O.
+    unfold LP.linked_inv in Il. rewrite K in Il. destruct s'; try contradiction.
+    rewrite LP.keys_of_lmap. cbn [LP.ord_of] in O. rewrite O. unfold events, order_spec. cbn [flat_map].
+    unfold events1. rewrite K. rewrite app_nil_r. reflexivity.
+  - intros k. unfold s'. rewrite (from_json_body_eq c _ s Hs). unfold from_json_body, MM.json_entries, put_entries, init.
+    rewrite K. cbn [is_kv fst].
+    destruct (LP.lm_puts_spec (dedup_last kvs [] kvs) [] [] LP.lmap_inv_nil) as (t' & E & _ & T).
+    unfold LP.lm_puts in E. rewrite E. cbn [get_of]. rewrite T.
+    change (fold_left (fun acc e => hput (fst e) (snd e) acc) (dedup_last kvs [] kvs) [])
+      with (sort_entries (dedup_last kvs [] kvs)).
+    rewrite hget_dedup_last. reflexivity.
+Qed.
+
+(* ---------- bidirectional maps: successive Puts; the result is one-to-one ---------- *)
+Lemma bidi_inv_lookup : forall c s k v, bidi_inv c s -> In (k, v) (entries_of c s) ->
+  get_of c s k = oopt (Some v) /\ getkey_of c s v = oopt (Some k).
+Proof.
+  intros c s k v Hi Hin. unfold bidi_inv in Hi.
+  destruct (ckind c) eqn:K; try contradiction; destruct s; try contradiction; cbn [entries_of get_of getkey_of] in *.
+  - destruct Hi as (Hf & Hiv & Hm). split; f_equal.
+    + apply SP.sp_hget_In; assumption.
+    + apply SP.sp_hget_In; [exact Hiv|]. apply Hm. exact Hin.
+  - destruct Hi as (Hf & Hiv & (Hsf & Hsi & Hm)). unfold tb_lists in *. cbn [fst snd] in *. split; f_equal.
+    + rewrite (MM.rbs_get_spec (kc c) (MM.kc_SWO c)) by apply Hf.
+      rewrite (find_list_In (kc c) (MM.kc_SWO c) k _ (k, v) Hsf Hin (swo_refl _ (MM.kc_SWO c) k)). reflexivity.
+    + rewrite (MM.rbs_get_spec (vc c) (vc_SWO c)) by apply Hiv.
+      rewrite (find_list_In (vc c) (vc_SWO c) v _ (v, k) Hsi (proj1 (Hm k v) Hin) (swo_refl _ (vc_SWO c) v)).
+      reflexivity.
+Qed.
+
+Definition bidi_lists (s : state) : list (Z * Z) * list (Z * Z) :=
+  match s with
+  | StHBidi f i => (f, i)
+  | StTBidi f _ i _ => (RB.inorder f, RB.inorder i)
+  | _ => ([], [])
+  end.
+Definition bidi_kcmp (c : config) : cmpf := match ckind c with TreeBidiMap => kc c | _ => Z.compare end.
+Definition bidi_vcmp (c : config) : cmpf := match ckind c with TreeBidiMap => vc c | _ => Z.compare end.
+
+Theorem C12_denotes_bidi_proof : forall c s kvs, bidi_kind (ckind c) = true -> s <> StCrash ->
+  let s' := fst (from_json c (DObj kvs) s) in
+  snd (from_json c (DObj kvs) s) = true /\
+  bidi_inv c s' /\
+  bidi_lists s' = lb_puts (bidi_kcmp c) (bidi_vcmp c) (sort_entries kvs) ([], []) /\
+  lbI (bidi_kcmp c) (bidi_vcmp c) (fst (bidi_lists s')) (snd (bidi_lists s')) /\
+  (forall k v, In (k, v) (entries_of c s') ->
+     get_of c s' k = oopt (Some v) /\ getkey_of c s' v = oopt (Some k)).
+Proof.
+  intros c s kvs K Hs s'.
+  assert (Hkv : is_kv (ckind c) = true) by (destruct (ckind c); try discriminate K; reflexivity).
+  assert (Es : from_json c (DObj kvs) s = (put_entries c (sort_entries kvs) (init c), true)).
+  { rewrite (from_json_body_eq c _ s Hs). unfold from_json_body, MM.json_entries. rewrite Hkv.
+    destruct (ckind c); try discriminate K; reflexivity. }
+  unfold s'. rewrite Es. cbn [fst snd]. split; [reflexivity|].
+  assert (Hi' : bidi_inv c (put_entries c (sort_entries kvs) (init c))).
+  { apply bidi_put_entries. apply bidi_inv_init. exact K. }
+  split; [exact Hi'|].
+  assert (EL : bidi_lists (put_entries c (sort_entries kvs) (init c)) =
+               lb_puts (bidi_kcmp c) (bidi_vcmp c) (sort_entries kvs) ([], [])).
+  { unfold bidi_kcmp, bidi_vcmp, init, put_entries. destruct (ckind c) eqn:Kc; try discriminate K.
+    - rewrite hbidi_puts_lb.
+      match goal with |- bidi_lists (let '(f0, i0) := ?X in _) = ?Y => change Y with X; destruct X as [f' i'] end.
+      reflexivity.
+    - destruct (tbidi_puts_sim (kc c) (vc c) (MM.kc_SWO c) (vc_SWO c) (sort_entries kvs)
+                  (rbs_empty, rbs_empty) (tbI_empty (kc c) (vc c))) as ([[f' fn'] [i' inn']] & E & _ & L).
+      match goal with |- context [tbidi_puts ?a ?b ?d ?e] =>
+        replace (tbidi_puts a b d e) with (Some (f', fn', (i', inn'))) by (symmetry; exact E) end.
+      cbn [bidi_lists]. exact L. }
+  split; [exact EL|]. split; [|intros k v; apply bidi_inv_lookup; exact Hi'].
+  rewrite EL. apply (lb_puts_inv (bidi_kcmp c) (bidi_vcmp c)).
+  - unfold bidi_kcmp. destruct (ckind c); try apply Zcompare_SWO. apply MM.kc_SWO.
+  - unfold bidi_vcmp. destruct (ckind c); try apply Zcompare_SWO. apply vc_SWO.
+  - apply lbI_nil.
+Qed.
+
+(* ================================================================================================ *)
+(* 10. the ring in detail; what is NOT true                                                         *)
+(* ================================================================================================ *)
+Theorem C11_ring_proof : forall c ops, ckind c = CircularBuffer -> 1 <= ccap c ->
+  exists r r', run c ops = StRing r /\ reload c (run c ops) = (StRing r', true) /\
+    Ring.rvalues r' = Ring.rvalues r /\ Ring.rsize r' = Ring.rsize r /\ Ring.rmax r' = Ring.rmax r /\
+    Ring.rfullb r' = Ring.rfullb r /\ Ring.rpeek r' = Ring.rpeek r /\ Ring.rstart r' = 0%nat.
+Proof.
+  intros c ops K Hr.
+  assert (Hc : config_ok c) by (split; [intros F; rewrite F in K; discriminate K|intros _; exact Hr]).
+  pose proof (jinv_run c ops Hc) as Hj. unfold jinv in Hj. rewrite K in Hj. destruct Hj as (r & E & Hi & Hm).
+  destruct (reload_ring c r K Hc Hi Hm) as (r' & E' & HR & S0).
+  exists r, r'. rewrite E. split; [reflexivity|]. split; [exact E'|].
+  pose proof (ring_equiv_size r r' HR) as Es. destruct HR as (_ & Hi' & Em & Ev).
+  split; [symmetry; exact Ev|]. split; [symmetry; exact Es|]. split; [symmetry; exact Em|].
+  split; [rewrite !RP.rfull_abs by assumption; rewrite Ev, Em; reflexivity|].
+  split; [rewrite !RP.rpeek_abs by assumption; rewrite Ev; reflexivity|exact S0].
+Qed.
+
+Definition mkc (k : kind) (kcm vcm : cmp_id) (cap ord : Z) : config :=
+  {| ckind := k; kcmp := kcm; vcmp := vcm; ccap := cap; corder := ord; cuni := 6 |}.
+
+(* state equality is FALSE for the search trees and the ring: the reloaded tree is built by
+   inserting the keys in ascending order and generally has another shape; a wrapped ring is
+   reloaded unwrapped *)
+Theorem C11_state_equal_tree_refuted : exists c ops, config_ok c /\ ckind c = RedBlackTree /\
+  fst (reload c (run c ops)) <> run c ops.
+Proof.
+  exists (mkc RedBlackTree CNat CNat 3 3), (map (fun k => Put k (k * k)) [5; 3; 9; 1; 7]).
+  split; [split; discriminate|]. split; [reflexivity|]. vm_compute. discriminate.
+Qed.
+
+Theorem C11_state_equal_ring_refuted : exists c ops, config_ok c /\ ckind c = CircularBuffer /\
+  fst (reload c (run c ops)) <> run c ops.
+Proof.
+  exists (mkc CircularBuffer CNat CNat 3 3), (map Enqueue [1; 2; 3; 4; 5] ++ [Dequeue]).
+  split; [split; [discriminate|intros _; vm_compute; discriminate]|]. split; [reflexivity|]. vm_compute. discriminate.
+Qed.
+
+(* the PriorityQueue loaded from an array is NOT the queue obtained by enqueueing the array's
+   elements in array order (Floyd's heapify vs successive sift-ups); it IS the queue obtained by
+   enqueueing the heapified array in order ([load_ops]) *)
+Theorem C12_pq_array_order_refuted : exists c vs, ckind c = PriorityQueue /\
+  fst (from_json c (DArr vs) (init c)) <> run c (map Enqueue vs).
+Proof.
+  exists (mkc PriorityQueue CNat CNat 3 3), [3; 2; 1]. split; [reflexivity|]. vm_compute. discriminate.
+Qed.
+
+(* ================================================================================================ *)
+(* 11. the invariant is preserved by EVERY operation from ANY state satisfying it                   *)
+(* ================================================================================================ *)
+Lemma set_hist1_zero : forall o m, In m (MM.set_hist1 o) -> match m with MPut _ v => v = 0 | _ => True end.
+Proof.
+  intros o m H. apply (set_hist_zero [o]). unfold MM.set_hist. cbn [flat_map]. rewrite app_nil_r. exact H.
+Qed.
+
+Theorem jinv_step : forall c s o, config_ok c -> jinv c s -> jinv c (fst (fst (step c s o))).
+Proof.
+  intros c s o Hc Hj. unfold jinv in *.
+  assert (Hseq : seq_kind (ckind c) = true -> (exists l, s = StSeq l) ->
+                 exists l', fst (fst (step c s o)) = StSeq l').
+  { intros K (l & ->).
+    assert (L : IterLinear.linear_state c (StSeq l) = true).
+    { unfold IterLinear.linear_state. destruct (ckind c); try discriminate K; reflexivity. }
+    assert (Rk : IterLinear.ring_ok c = true).
+    { unfold IterLinear.ring_ok. destruct (ckind c); try discriminate K; reflexivity. }
+    pose proof (IterLinear.step_linear c (StSeq l) o Rk L) as L'.
+    unfold IterLinear.linear_state in L'. destruct (fst (fst (step c (StSeq l) o))); try discriminate L';
+      try (destruct (ckind c); discriminate). eexists. reflexivity. }
+  assert (Hheap : is_heap_kind (ckind c) = true -> (exists l, s = StHeap l /\ HP.heap_ok (kc c) l) ->
+                  exists l', fst (fst (step c s o)) = StHeap l' /\ HP.heap_ok (kc c) l').
+  { intros K (l & -> & Hok). destruct (C06Proofs.heap_step_sound c l o K Hok) as (l' & r & E & Hok' & _).
+    rewrite E. exists l'. split; [reflexivity|exact Hok']. }
+  assert (Hmap : MM.map_kind (ckind c) = true -> MM.minv c s -> MM.minv c (fst (fst (step c s o)))).
+  { intros K Hi. apply MM.step_preserves; [apply config_ok_valid; assumption|exact Hi]. }
+  destruct (ckind c) eqn:K; try (apply Hseq; [reflexivity|exact Hj]); try (apply Hheap; [reflexivity|exact Hj]);
+    try (apply Hmap; [reflexivity|exact Hj]); try (apply bidi_step; exact Hj);
+    try (apply (SP.set_step c s o Hj)).
+  - (* TreeSet *)
+    destruct Hj as (Hs & Ht & Hz). split; [apply (SP.set_step c s o Hs)|].
+    destruct (MM.ts_step_sim c s o K Ht) as [Ht' E]. split; [exact Ht'|].
+    unfold MM.tsinv in Ht, Ht'. destruct s; try contradiction.
+    destruct (fst (fst (step c (StRB t n) o))); try contradiction. cbn [ts_zero entries_of] in *.
+    rewrite E. apply puts_zero; [exact Hz|apply set_hist1_zero].
+  - (* CircularBuffer *)
+    destruct Hj as (r & -> & Hi & Hm). destruct Hc as [_ Hr]. specialize (Hr K).
+    assert (H05 : c05_config c) by (apply C05Proofs.ring_config; assumption).
+    assert (R0 : C05Proofs.R c (StRing r) (Ring.rvalues r)) by (apply C05Proofs.R_ring_intro; auto).
+    destruct (C05Proofs.R_step c _ _ o H05 R0) as (R1 & _).
+    unfold C05Proofs.R in R1. rewrite K in R1. destruct R1 as (r' & E & Hi' & Hm' & _).
+    exists r'. auto.
+Qed.
+
+Lemma jinv_run_from : forall c ops s, config_ok c -> jinv c s -> jinv c (run_from c s ops).
+Proof.
+  intros c ops. induction ops as [|o ops IH]; intros s Hc Hj; [exact Hj|].
+  rewrite run_from_cons. apply IH; [exact Hc|]. apply jinv_step; assumption.
+Qed.
+
+(* ================================================================================================ *)
+(* 12. C11, same future, for ALL kinds: an observational equivalence preserved by every step        *)
+(* ================================================================================================ *)
+Definition content_kind (k : kind) : bool :=
+  match k with TreeSet | TreeMap | RedBlackTree | AVLTree | BTree | TreeBidiMap => true | _ => false end.
+
+(* two states that no client can tell apart, now or later:
+   the same state for the 14 state-equal kinds; the same logical queue for the ring; the same
+   entries for the search trees (the shapes may differ) *)
+Definition oeq (c : config) (s1 s2 : state) : Prop :=
+  jinv c s1 /\ jinv c s2 /\
+  match ckind c with
+  | CircularBuffer => exists q, C05Proofs.R c s1 q /\ C05Proofs.R c s2 q
+  | TreeSet | TreeMap | RedBlackTree | AVLTree | BTree | TreeBidiMap => entries_of c s1 = entries_of c s2
+  | _ => s1 = s2
+  end.
+
+Definition iter_eq (c : config) (s1 s2 : state) : Prop := forall cs, run_iter c s1 cs = run_iter c s2 cs.
+
+Lemma oeq_refl : forall c s, jinv c s -> oeq c s s.
+Proof.
+  intros c s Hj. split; [exact Hj|]. split; [exact Hj|].
+  destruct (ckind c) eqn:K; try reflexivity.
+  unfold jinv in Hj. rewrite K in Hj. destruct Hj as (r & -> & Hi & Hm).
+  exists (Ring.rvalues r). split; apply C05Proofs.R_ring_intro; auto.
+Qed.
+
+(* facts about the red-black tree of the three StRB kinds *)
+Lemma strb_facts : forall c t n, ckind c = RedBlackTree \/ ckind c = TreeMap \/ ckind c = TreeSet ->
+  jinv c (StRB t n) -> RBMap.bst (kc c) t /\ n = Z.of_nat (RB.count t).
+Proof.
+  intros c t n K Hj. unfold jinv in Hj. destruct K as [K|[K|K]]; rewrite K in Hj.
+  - unfold MM.minv, MM.Generic.inv in Hj. rewrite K in Hj. destruct Hj as (_ & Hb & Hn). cbn [fst snd] in *.
+    split; [exact Hb|]. rewrite RBMap.count_inorder. exact Hn.
+  - unfold MM.minv, MM.Generic.inv in Hj. rewrite K in Hj. destruct Hj as (_ & Hb & Hn). cbn [fst snd] in *.
+    split; [exact Hb|]. rewrite RBMap.count_inorder. exact Hn.
+  - destruct Hj as (Hs & _ & _). unfold SP.set_inv in Hs. rewrite K in Hs. destruct Hs as (_ & Hb & Hn).
+    split; assumption.
+Qed.
+
+Lemma content_kind_cases : forall c, content_kind (ckind c) = true ->
+  tree_kind (ckind c) = true \/ ckind c = TreeSet \/ ckind c = TreeBidiMap.
+Proof. intros c K. destruct (ckind c); try discriminate K; auto. Qed.
+
+Lemma jinv_tree_minv : forall c s, tree_kind (ckind c) = true -> jinv c s -> MM.minv c s.
+Proof. intros c s K Hj. unfold jinv in Hj. destruct (ckind c); try discriminate K; exact Hj. Qed.
+
+(* what [equivalent] gives for the content kinds *)
+Lemma content_oeq_equiv : forall c s1 s2, config_ok c -> content_kind (ckind c) = true -> oeq c s1 s2 ->
+  equiv_content c s1 s2 /\ (ckind c <> BTree -> equiv_iter c s1 s2).
+Proof.
+  intros c s1 s2 Hc K (J1 & J2 & E).
+  destruct (content_kind_cases c K) as [Kt|[Ks|Kb]].
+  - assert (E' : entries_of c s1 = entries_of c s2) by (destruct (ckind c); try discriminate Kt; exact E).
+    pose proof (jinv_tree_minv c s1 Kt J1) as M1. pose proof (jinv_tree_minv c s2 Kt J2) as M2.
+    split; [apply tree_equiv_content; assumption|]. intros Kb. apply rb_avl_equiv_iter; try assumption.
+    destruct (ckind c); try discriminate Kt; tauto.
+  - rewrite Ks in E. assert (HE : equivalent c s1 s2) by (apply treeset_equivalent; assumption).
+    split; [apply HE|intros _; apply HE].
+  - rewrite Kb in E. unfold jinv in J1, J2. rewrite Kb in J1, J2.
+    assert (HE : equivalent c s1 s2) by (apply treebidi_equivalent; assumption).
+    split; [apply HE|intros _; apply HE].
+Qed.
+
+(* iterator scripts answer alike (all kinds but BTree, whose iterator theorem is pending) *)
+Lemma oeq_iter_eq : forall c s1 s2, config_ok c -> ckind c <> BTree -> oeq c s1 s2 -> iter_eq c s1 s2.
+Proof.
+  intros c s1 s2 Hc Kb H cs. pose proof H as (J1 & J2 & E).
+  destruct (content_kind (ckind c)) eqn:Kc.
+  - destruct (content_oeq_equiv c s1 s2 Hc Kc H) as [(_ & Hv & _ & He & _) _].
+    destruct (ckind c) eqn:K; try discriminate Kc; try congruence.
+    + (* TreeSet *)
+      unfold jinv in J1, J2. rewrite K in J1, J2. destruct J1 as (_ & T1 & _). destruct J2 as (_ & T2 & _).
+      unfold MM.tsinv in T1, T2. destruct s1; try contradiction. destruct s2; try contradiction.
+      assert (F1 : jinv c (StRB t n)) by (destruct H as (F & _); exact F).
+      assert (F2 : jinv c (StRB t0 n0)) by (destruct H as (_ & F & _); exact F).
+      destruct (strb_facts c t n (or_intror (or_intror K)) F1) as [_ N1].
+      destruct (strb_facts c t0 n0 (or_intror (or_intror K)) F2) as [_ N2].
+      rewrite !IterTreeRB.run_iter_treeset by assumption.
+      cbn [values_of] in Hv. rewrite K in Hv. rewrite Hv. reflexivity.
+    + (* TreeMap *)
+      unfold jinv in J1, J2. rewrite K in J1, J2. unfold MM.minv, MM.Generic.inv in J1, J2. rewrite K in J1, J2.
+      destruct s1; try contradiction. destruct s2; try contradiction.
+      destruct J1 as (_ & _ & N1). destruct J2 as (_ & _ & N2). cbn [fst snd] in N1, N2.
+      rewrite <- RBMap.count_inorder in N1, N2.
+      rewrite !IterTreeRB.run_iter_rb by (try assumption; right; exact K).
+      cbn [entries_of] in He. rewrite He. reflexivity.
+    + (* TreeBidiMap *)
+      unfold jinv in J1, J2. rewrite K in J1, J2. unfold bidi_inv in J1, J2. rewrite K in J1, J2.
+      destruct s1; try contradiction. destruct s2; try contradiction.
+      destruct J1 as ((_ & _ & N1) & _). destruct J2 as ((_ & _ & N2) & _). cbn [fst snd] in N1, N2.
+      rewrite <- RBMap.count_inorder in N1, N2.
+      rewrite !IterTreeRB.run_iter_treebidi by assumption.
+      cbn [entries_of] in He. rewrite He. reflexivity.
+    + (* RedBlackTree *)
+      unfold jinv in J1, J2. rewrite K in J1, J2. unfold MM.minv, MM.Generic.inv in J1, J2. rewrite K in J1, J2.
+      destruct s1; try contradiction. destruct s2; try contradiction.
+      destruct J1 as (_ & _ & N1). destruct J2 as (_ & _ & N2). cbn [fst snd] in N1, N2.
+      rewrite <- RBMap.count_inorder in N1, N2.
+      rewrite !IterTreeRB.run_iter_rb by (try assumption; left; exact K).
+      cbn [entries_of] in He. rewrite He. reflexivity.
+    + (* AVLTree *)
+      unfold jinv in J1, J2. rewrite K in J1, J2. unfold MM.minv, MM.Generic.inv in J1, J2. rewrite K in J1, J2.
+      destruct s1; try contradiction. destruct s2; try contradiction.
+      destruct J1 as (_ & _ & N1). destruct J2 as (_ & _ & N2).
+      rewrite <- AVLMap.count_inorder in N1, N2.
+      rewrite !IterTreeAVL.run_iter_avl by assumption.
+      cbn [entries_of] in He. rewrite He. reflexivity.
+  - destruct (ckind c) eqn:K; try discriminate Kc; try (rewrite E; reflexivity).
+    (* CircularBuffer *)
+    destruct E as (q & R1 & R2).
+    pose proof (C05Proofs.R_values c s1 q R1) as V1. pose proof (C05Proofs.R_values c s2 q R2) as V2.
+    unfold C05Proofs.R in R1, R2. rewrite K in R1, R2.
+    destruct R1 as (r1 & -> & _). destruct R2 as (r2 & -> & _).
+    rewrite !IterLinear.iter_CircularBuffer, V1, V2. reflexivity.
+Qed.
+
+(* ---------- one step on the content kinds: the answers ---------- *)
+Lemma kv_put_result : forall c s k v, is_kv (ckind c) = true -> s <> StCrash ->
+  fst (fst (step c s (Put k v))) <> StCrash ->
+  snd (fst (step c s (Put k v))) = match s with
+                                   | StRB _ _ | StAVL _ _ | StBT _ _ | StHMap _ | StLMap _ _ | StHBidi _ _
+                                   | StTBidi _ _ _ _ => ounit
+                                   | _ => ounsupported end.
+Proof.
+  intros c s k v Hkv Hs Hn. destruct s; try congruence; try reflexivity; unfold step in *.
+  - destruct (ckind c); try discriminate Hkv; destruct (rbs_put _ _ _ _) as [[t' n']|]; cbn [fst snd] in *; congruence.
+  - destruct (avl_put _ _ _ _ _) as [[t' n']|]; cbn [fst snd] in *; congruence.
+  - destruct (bt_put _ _ _ _ _ _) as [[t' n']|]; cbn [fst snd] in *; congruence.
+  - destruct (lmap_put k v (tbl, ord)). reflexivity.
+  - destruct (tbidi_put _ _ _ _ _) as [[[f' fn'] [i' inn']]|]; cbn [fst snd] in *; congruence.
+Qed.
+
+Lemma kv_remove_result : forall c s k, is_kv (ckind c) = true -> s <> StCrash ->
+  fst (fst (step c s (Remove k))) <> StCrash ->
+  snd (fst (step c s (Remove k))) = match s with
+                                    | StRB _ _ | StAVL _ _ | StBT _ _ | StHMap _ | StLMap _ _ | StHBidi _ _
+                                    | StTBidi _ _ _ _ => ounit
+                                    | _ => ounsupported end.
+Proof.
+  intros c s k Hkv Hs Hn. destruct s; try congruence; try reflexivity; unfold step in *.
+  - destruct (ckind c); try discriminate Hkv; destruct (rbs_remove _ _ _) as [[t' n']|]; cbn [fst snd] in *; congruence.
+  - destruct (avl_remove _ _ _ _) as [[t' n']|]; cbn [fst snd] in *; congruence.
+  - destruct (bt_remove _ _ _ _ _) as [[t' n']|]; cbn [fst snd] in *; congruence.
+  - destruct (lmap_remove k (tbl, ord)). reflexivity.
+  - destruct (hbidi_remove k (f, i)). reflexivity.
+  - destruct (tbidi_remove _ _ _ _) as [[[f' fn'] [i' inn']]|]; cbn [fst snd] in *; congruence.
+Qed.
+
+(* the set-algebra results of a red-black tree depend on its keys, lookups and size only *)
+Definition rb_same (cmp : cmpf) (a b : rbs) : Prop :=
+  snd a = snd b /\ RB.keys (fst a) = RB.keys (fst b) /\ forall k, RB.lookup cmp k (fst a) = RB.lookup cmp k (fst b).
+
+Lemma ts_ops_same : forall c a1 a2 b1 b2, rb_same (kc c) a1 a2 -> rb_same (kc c) b1 b2 ->
+  ts_inter c a1 b1 = ts_inter c a2 b2 /\ ts_union c a1 b1 = ts_union c a2 b2 /\ ts_diff c a1 b1 = ts_diff c a2 b2.
+Proof.
+  intros c [ta1 na1] [ta2 na2] [tb1 nb1] [tb2 nb2] (Ea & Eka & Ela) (Eb & Ekb & Elb). cbn [fst snd] in *. subst.
+  unfold ts_inter, ts_union, ts_diff. cbn [fst snd]. split; [|split].
+  - destruct (na2 <=? nb2); cbn [fst snd].
+    + rewrite Eka. f_equal. apply filter_ext. intros k. rewrite Elb. reflexivity.
+    + rewrite Ekb. f_equal. apply filter_ext. intros k. rewrite Ela. reflexivity.
+  - rewrite Eka, Ekb. reflexivity.
+  - rewrite Eka. f_equal. apply filter_ext. intros k. rewrite Elb. reflexivity.
+Qed.
+
+Lemma rb_same_refl : forall cmp a, rb_same cmp a a.
+Proof. intros cmp a. repeat split. Qed.
+
+Lemma set_algebra_same : forall c o t1 n1 t2 n2 other, rb_same (kc c) (t1, n1) (t2, n2) ->
+  set_algebra c o (StRB t1 n1) other = set_algebra c o (StRB t2 n2) other /\
+  set_algebra c o (StRB t1 n1) (StRB t1 n1) = set_algebra c o (StRB t2 n2) (StRB t2 n2).
+Proof.
+  intros c o t1 n1 t2 n2 other H. split.
+  - destruct other; try reflexivity. cbn [set_algebra].
+    destruct (ts_ops_same c (t1, n1) (t2, n2) (t, n) (t, n) H (rb_same_refl _ _)) as (A & B & D).
+    destruct o; [rewrite A|rewrite B|rewrite D]; reflexivity.
+  - cbn [set_algebra].
+    destruct (ts_ops_same c (t1, n1) (t2, n2) (t1, n1) (t2, n2) H H) as (A & B & D).
+    destruct o; [rewrite A|rewrite B|rewrite D]; reflexivity.
+Qed.
+
+Lemma strb_same : forall c t1 n1 t2 n2, ckind c = RedBlackTree \/ ckind c = TreeMap \/ ckind c = TreeSet ->
+  jinv c (StRB t1 n1) -> jinv c (StRB t2 n2) -> RB.inorder t1 = RB.inorder t2 ->
+  rb_same (kc c) (t1, n1) (t2, n2).
+Proof.
+  intros c t1 n1 t2 n2 K J1 J2 E.
+  destruct (strb_facts c t1 n1 K J1) as [B1 N1]. destruct (strb_facts c t2 n2 K J2) as [B2 N2].
+  split; [cbn [snd]; rewrite N1, N2, !RBMap.count_inorder, E; reflexivity|].
+  split; [cbn [fst]; unfold RB.keys; rewrite E; reflexivity|].
+  intros k. cbn [fst]. rewrite !(RBMap.lookup_spec (kc c) (MM.kc_SWO c)) by assumption. rewrite E. reflexivity.
+Qed.
+
+Lemma step_iter_result : forall c s cs, s <> StCrash -> snd (fst (step c s (Iter cs))) = OL (run_iter c s cs).
+Proof. intros c s cs Hs. destruct s; try congruence; reflexivity. Qed.
+Lemma step_sorted_result : forall c s, s <> StCrash ->
+  snd (fst (step c s SortedValues)) = ozs (isort Z.compare (values_of c s)).
+Proof. intros c s Hs. destruct s; try congruence; reflexivity. Qed.
+Lemma step_sortedf_result : forall c s ci res, s <> StCrash ->
+  snd (fst (step c s (SortedValuesFunc ci res))) = obool (sort_okb (cmp_of ci) (values_of c s) res).
+Proof. intros c s ci res Hs. destruct s; try congruence; reflexivity. Qed.
+Lemma step_clear_result : forall c s, s <> StCrash -> snd (fst (step c s Clear)) = ounit.
+Proof. intros c s Hs. destruct s; try congruence; reflexivity. Qed.
+
+(* the states of a content kind have the shape of that kind *)
+Definition shape_of (c : config) (s : state) : Prop :=
+  match ckind c, s with
+  | (TreeSet | TreeMap | RedBlackTree), StRB _ _ => True
+  | AVLTree, StAVL _ _ => True
+  | BTree, StBT _ _ => True
+  | TreeBidiMap, StTBidi _ _ _ _ => True
+  | _, _ => False
+  end.
+
+Lemma jinv_shape : forall c s, content_kind (ckind c) = true -> jinv c s -> shape_of c s.
+Proof.
+  intros c s K Hj. unfold jinv, shape_of in *.
+  destruct (ckind c) eqn:Kc; try discriminate K.
+  - destruct Hj as (_ & Ht & _). unfold MM.tsinv in Ht. destruct s; try contradiction. exact I.
+  - unfold MM.minv, MM.Generic.inv in Hj. rewrite Kc in Hj. destruct s; try contradiction. exact I.
+  - unfold bidi_inv in Hj. rewrite Kc in Hj. destruct s; try contradiction. exact I.
+  - unfold MM.minv, MM.Generic.inv in Hj. rewrite Kc in Hj. destruct s; try contradiction. exact I.
+  - unfold MM.minv, MM.Generic.inv in Hj. rewrite Kc in Hj. destruct s; try contradiction. exact I.
+  - unfold MM.minv, MM.Generic.inv in Hj. rewrite Kc in Hj. destruct s; try contradiction. exact I.
+Qed.
+
+Lemma content_step_result : forall c s1 s2 o, config_ok c -> content_kind (ckind c) = true ->
+  oeq c s1 s2 -> iter_eq c s1 s2 ->
+  snd (fst (step c s1 o)) = snd (fst (step c s2 o)).
+Proof.
+  intros c s1 s2 o Hc Kc H Hit. pose proof H as (J1 & J2 & E).
+  pose proof (jinv_not_crash c _ (jinv_step c s1 o Hc J1)) as N1.
+  pose proof (jinv_not_crash c _ (jinv_step c s2 o Hc J2)) as N2.
+  pose proof (jinv_not_crash c _ J1) as C1. pose proof (jinv_not_crash c _ J2) as C2.
+  destruct (content_oeq_equiv c s1 s2 Hc Kc H) as [(_ & Hv & _ & He & _) Heach].
+  pose proof (jinv_shape c s1 Kc J1) as Sh1. pose proof (jinv_shape c s2 Kc J2) as Sh2.
+  (* the red-black facts, when the state is a red-black tree *)
+  assert (Hrb : forall t1 n1 t2 n2, s1 = StRB t1 n1 -> s2 = StRB t2 n2 -> rb_same (kc c) (t1, n1) (t2, n2)).
+  { intros t1 n1 t2 n2 -> ->. unfold shape_of in Sh1. apply strb_same; try assumption.
+    destruct (ckind c); try contradiction; auto. }
+  assert (Heach' : has_enumerable (ckind c) = true -> each_of c s1 = each_of c s2).
+  { intros Hen. apply Heach. intros F. rewrite F in Hen. discriminate Hen. }
+  destruct o.
+  18:{ (* FromJSON *) rewrite !C12_step_result_proof by assumption. reflexivity. }
+  18:{ (* Iter *) rewrite !step_iter_result by assumption. rewrite (Hit script). reflexivity. }
+  17:{ (* Clear *) rewrite !step_clear_result by assumption. reflexivity. }
+  30:{ rewrite !step_sortedf_result by assumption. rewrite Hv. reflexivity. }
+  29:{ rewrite !step_sorted_result by assumption. rewrite Hv. reflexivity. }
+  15:{ (* Put *)
+    destruct (is_kv (ckind c)) eqn:Hkv.
+    - rewrite !kv_put_result by assumption. unfold shape_of in Sh1, Sh2.
+      destruct (ckind c); try discriminate Kc; destruct s1; try contradiction; destruct s2; try contradiction; reflexivity.
+    - unfold shape_of in Sh1, Sh2.
+      destruct (ckind c) eqn:K; try discriminate Kc; try discriminate Hkv.
+      destruct s1; try contradiction; destruct s2; try contradiction. unfold step. rewrite K. reflexivity. }
+  15:{ (* Remove *)
+    destruct (is_kv (ckind c)) eqn:Hkv.
+    - rewrite !kv_remove_result by assumption. unfold shape_of in Sh1, Sh2.
+      destruct (ckind c); try discriminate Kc; destruct s1; try contradiction; destruct s2; try contradiction; reflexivity.
+    - unfold shape_of in Sh1, Sh2.
+      destruct (ckind c) eqn:K; try discriminate Kc; try discriminate Hkv.
+      destruct s1; try contradiction; destruct s2; try contradiction. unfold step. rewrite K. reflexivity. }
+  all: unfold shape_of in Sh1, Sh2;
+    destruct (ckind c) eqn:K; try discriminate Kc;
+    destruct s1; try contradiction; destruct s2; try contradiction;
+    unfold step; rewrite ?K; cbn [has_enumerable negb pure fst snd]; try reflexivity.
+  all: try (rewrite (Heach' eq_refl); match goal with |- context [each_of ?cc ?ss] => destruct (each_of cc ss) end; reflexivity).
+  all: try (match goal with |- set_algebra ?cc ?o _ ?other = _ =>
+              destruct (set_algebra_same cc o _ _ _ _ other (Hrb _ _ _ _ eq_refl eq_refl)) as [A B];
+              first [exact A|exact B] end).
+  (* RemoveVals on a TreeSet *)
+  unfold step in N1, N2. rewrite K in N1, N2.
+  destruct (rbs_removes (kc c) vs (t, n)) as [[t' n']|]; destruct (rbs_removes (kc c) vs (t0, n0)) as [[t0' n0']|];
+    cbn [fst snd] in *; congruence.
+Qed.
+
+(* ---------- one step on the content kinds: the entries ---------- *)
+Lemma tbidi_lists_eq : forall c f1 fn1 i1 inn1 f2 fn2 i2 inn2,
+  tbI (kc c) (vc c) ((f1, fn1), (i1, inn1)) -> tbI (kc c) (vc c) ((f2, fn2), (i2, inn2)) ->
+  RB.inorder f1 = RB.inorder f2 ->
+  tb_lists ((f1, fn1), (i1, inn1)) = tb_lists ((f2, fn2), (i2, inn2)).
+Proof.
+  intros c f1 fn1 i1 inn1 f2 fn2 i2 inn2 (_ & _ & L1) (_ & _ & L2) E. unfold tb_lists in *. cbn [fst snd] in *.
+  rewrite <- E in L2. rewrite (lbI_inverse_unique (kc c) (vc c) (vc_SWO c) _ _ _ L1 L2), E. reflexivity.
+Qed.
+
+Lemma tbidi_step_entries : forall c s1 s2 o, ckind c = TreeBidiMap -> bidi_inv c s1 -> bidi_inv c s2 ->
+  entries_of c s1 = entries_of c s2 ->
+  entries_of c (fst (fst (step c s1 o))) = entries_of c (fst (fst (step c s2 o))).
+Proof.
+  intros c s1 s2 o K H1 H2 E. destruct (mutator o) eqn:Hmu.
+  2:{ rewrite (bidi_step_observer c s1 o H1 Hmu), (bidi_step_observer c s2 o H2 Hmu). exact E. }
+  assert (C1 : s1 <> StCrash) by (intros ->; unfold bidi_inv in H1; rewrite K in H1; exact H1).
+  assert (C2 : s2 <> StCrash) by (intros ->; unfold bidi_inv in H2; rewrite K in H2; exact H2).
+  destruct o; try discriminate Hmu.
+  - (* Put *)
+    unfold bidi_inv in H1, H2. rewrite K in H1, H2. destruct s1; try contradiction. destruct s2; try contradiction.
+    cbn [entries_of] in E. pose proof (tbidi_lists_eq c _ _ _ _ _ _ _ _ H1 H2 E) as EL.
+    destruct (tbidi_put_sim (kc c) (vc c) (MM.kc_SWO c) (vc_SWO c) k v _ H1) as ([[f' fn'] [i' inn']] & E1 & _ & L1).
+    destruct (tbidi_put_sim (kc c) (vc c) (MM.kc_SWO c) (vc_SWO c) k v _ H2) as ([[g' gn'] [j' jnn']] & E2 & _ & L2).
+    unfold step. rewrite E1, E2. cbn [fst entries_of]. rewrite <- EL in L2. rewrite <- L2 in L1.
+    unfold tb_lists in L1. cbn [fst snd] in L1. inversion L1. reflexivity.
+  - (* Remove *)
+    unfold bidi_inv in H1, H2. rewrite K in H1, H2. destruct s1; try contradiction. destruct s2; try contradiction.
+    cbn [entries_of] in E. pose proof (tbidi_lists_eq c _ _ _ _ _ _ _ _ H1 H2 E) as EL.
+    destruct (tbidi_remove_sim (kc c) (vc c) (MM.kc_SWO c) (vc_SWO c) k _ H1) as ([[f' fn'] [i' inn']] & E1 & _ & L1).
+    destruct (tbidi_remove_sim (kc c) (vc c) (MM.kc_SWO c) (vc_SWO c) k _ H2) as ([[g' gn'] [j' jnn']] & E2 & _ & L2).
+    unfold step. rewrite E1, E2. cbn [fst entries_of]. rewrite <- EL in L2. rewrite <- L2 in L1.
+    unfold tb_lists in L1. cbn [fst snd] in L1. inversion L1. reflexivity.
+  - (* Clear *)
+    unfold bidi_inv in H1, H2. rewrite K in H1, H2. destruct s1; try contradiction. destruct s2; try contradiction.
+    reflexivity.
+  - (* FromJSON *)
+    rewrite !step_from_json_gen by assumption. cbn [fst]. rewrite !from_json_body_eq by assumption.
+    unfold from_json_body. rewrite K. cbn [is_kv]. destruct d; cbn [fst]; try exact E; reflexivity.
+Qed.
+
+Lemma content_step_entries : forall c s1 s2 o, config_ok c -> content_kind (ckind c) = true -> oeq c s1 s2 ->
+  entries_of c (fst (fst (step c s1 o))) = entries_of c (fst (fst (step c s2 o))).
+Proof.
+  intros c s1 s2 o Hc Kc (J1 & J2 & E).
+  pose proof (jinv_step c s1 o Hc J1) as N1. pose proof (jinv_step c s2 o Hc J2) as N2.
+  destruct (content_kind_cases c Kc) as [Kt|[Ks|Kb]].
+  - assert (E' : entries_of c s1 = entries_of c s2) by (destruct (ckind c); try discriminate Kt; exact E).
+    pose proof (tree_kind_valid c Hc Kt) as Hv.
+    assert (Kl : ckind c <> LinkedHashMap) by (intros F; rewrite F in Kt; discriminate Kt).
+    pose proof (jinv_tree_minv c s1 Kt J1) as M1. pose proof (jinv_tree_minv c s2 Kt J2) as M2.
+    destruct (MM.step_preserves c s1 o Hv M1) as [M1' A1]. destruct (MM.step_preserves c s2 o Hv M2) as [M2' A2].
+    rewrite <- (m_abs_entries c _ M1' Kl), <- (m_abs_entries c _ M2' Kl), A1, A2.
+    rewrite (m_abs_entries c s1 M1 Kl), (m_abs_entries c s2 M2 Kl), E'. reflexivity.
+  - rewrite Ks in E. unfold jinv in J1, J2. rewrite Ks in J1, J2.
+    destruct J1 as (_ & T1 & _). destruct J2 as (_ & T2 & _).
+    destruct (MM.ts_step_sim c s1 o Ks T1) as [_ A1]. destruct (MM.ts_step_sim c s2 o Ks T2) as [_ A2].
+    rewrite A1, A2, E. reflexivity.
+  - rewrite Kb in E. unfold jinv in J1, J2. rewrite Kb in J1, J2. apply tbidi_step_entries; assumption.
+Qed.
+
+(* ---------- the equivalence is preserved by every step, with equal answers ---------- *)
+Lemma oeq_step : forall c s1 s2 o, config_ok c -> oeq c s1 s2 -> iter_eq c s1 s2 ->
+  snd (fst (step c s1 o)) = snd (fst (step c s2 o)) /\
+  oeq c (fst (fst (step c s1 o))) (fst (fst (step c s2 o))).
+Proof.
+  intros c s1 s2 o Hc H Hit. pose proof H as (J1 & J2 & E).
+  pose proof (jinv_step c s1 o Hc J1) as N1. pose proof (jinv_step c s2 o Hc J2) as N2.
+  destruct (content_kind (ckind c)) eqn:Kc.
+  - split; [apply content_step_result; assumption|].
+    split; [exact N1|]. split; [exact N2|].
+    pose proof (content_step_entries c s1 s2 o Hc Kc H) as E'.
+    destruct (ckind c); try discriminate Kc; exact E'.
+  - destruct (ckind c) eqn:K; try discriminate Kc; cbv iota in E;
+      try (subst s2; split; [reflexivity|]; unfold oeq; rewrite K; split; [exact N1|]; split; [exact N1|reflexivity]).
+    (* CircularBuffer *)
+    destruct E as (q & R1 & R2).
+    assert (H05 : c05_config c) by (apply C05Proofs.ring_config; [exact K|apply Hc; exact K]).
+    destruct (ring_step_sim c s1 s2 q o K H05 R1 R2) as (Er & q' & R1' & R2').
+    split; [exact Er|]. unfold oeq. rewrite K. split; [exact N1|]. split; [exact N2|]. exists q'. split; assumption.
+Qed.
+
+(* the B-tree iterator: the answers of a script depend on the entries only (pending: Proofs/IterTreeBT.v) *)
+Definition bt_script_ok : Prop :=
+  forall c ops1 ops2 cs, ckind c = BTree -> 3 <= corder c ->
+    entries_of c (run c ops1) = entries_of c (run c ops2) ->
+    run_iter c (run c ops1) cs = run_iter c (run c ops2) cs.
+
+Lemma run_snoc1 : forall c ops o, run c (ops ++ [o]) = fst (fst (step c (run c ops) o)).
+Proof. intros c ops o. rewrite run_app. reflexivity. Qed.
+
+Theorem oeq_future : forall c, config_ok c -> (ckind c <> BTree \/ bt_script_ok) ->
+  forall more ops1 ops2, oeq c (run c ops1) (run c ops2) ->
+  results_from c (run c ops1) more = results_from c (run c ops2) more /\
+  oeq c (run_from c (run c ops1) more) (run_from c (run c ops2) more).
+Proof.
+  intros c Hc Hbt. induction more as [|o more IH]; intros ops1 ops2 H; [split; [reflexivity|exact H]|].
+  assert (Hit : iter_eq c (run c ops1) (run c ops2)).
+  { assert (D : {ckind c = BTree} + {ckind c <> BTree})
+      by (destruct (ckind c); (left; reflexivity) || (right; discriminate)).
+    destruct D as [K|K]; [|apply oeq_iter_eq; assumption].
+    destruct Hbt as [F|Hbt]; [contradiction|]. intros cs. apply Hbt; [exact K|apply Hc; exact K|].
+    destruct H as (_ & _ & E). rewrite K in E. exact E. }
+  destruct (oeq_step c _ _ o Hc H Hit) as [Er H'].
+  cbn [results_from]. rewrite !run_from_cons. rewrite <- !run_snoc1 in *.
+  destruct (IH _ _ H') as [Er' H'']. rewrite Er, Er'. split; [reflexivity|exact H''].
+Qed.
+
+(* the reloaded container is observationally equivalent to the original *)
+Lemma reload_oeq : forall c s, config_ok c -> jinv c s -> oeq c s (fst (reload c s)).
+Proof.
+  intros c s Hc Hj. pose proof (reload_jinv c s Hc) as Hj'.
+  destruct (state_equal_kind (ckind c)) eqn:Kse.
+  { rewrite (reload_state_equal c s Hc Kse Hj). cbn [fst]. apply oeq_refl. exact Hj. }
+  split; [exact Hj|]. split; [exact Hj'|].
+  destruct (ckind c) eqn:K; try discriminate Kse.
+  - pose proof (reload_treeset_entries c s K) as E. unfold jinv in E. rewrite K in E.
+    unfold jinv in Hj. rewrite K in Hj. symmetry. apply E; assumption.
+  - assert (Kt : tree_kind (ckind c) = true) by (rewrite K; reflexivity).
+    symmetry. apply reload_tree_entries; [exact Hc|exact Kt|]. apply jinv_tree_minv; [exact Kt|exact Hj].
+  - unfold jinv in Hj. rewrite K in Hj. symmetry. apply reload_treebidi_entries; assumption.
+  - assert (Kt : tree_kind (ckind c) = true) by (rewrite K; reflexivity).
+    symmetry. apply reload_tree_entries; [exact Hc|exact Kt|]. apply jinv_tree_minv; [exact Kt|exact Hj].
+  - assert (Kt : tree_kind (ckind c) = true) by (rewrite K; reflexivity).
+    symmetry. apply reload_tree_entries; [exact Hc|exact Kt|]. apply jinv_tree_minv; [exact Kt|exact Hj].
+  - assert (Kt : tree_kind (ckind c) = true) by (rewrite K; reflexivity).
+    symmetry. apply reload_tree_entries; [exact Hc|exact Kt|]. apply jinv_tree_minv; [exact Kt|exact Hj].
+  - unfold jinv in Hj. rewrite K in Hj. destruct Hj as (r & -> & Hi & Hm).
+    destruct (reload_ring c r K Hc Hi Hm) as (r' & E & (_ & Hi' & Hm' & Hv') & _). rewrite E. cbn [fst].
+    exists (Ring.rvalues r). split; apply C05Proofs.R_ring_intro; auto; congruence.
+Qed.
+
+(* equivalent states look alike *)
+Lemma oeq_equivalent : forall c s1 s2, config_ok c -> oeq c s1 s2 ->
+  equiv_content c s1 s2 /\ (ckind c <> BTree -> equiv_iter c s1 s2).
+Proof.
+  intros c s1 s2 Hc H. destruct (content_kind (ckind c)) eqn:Kc; [apply content_oeq_equiv; assumption|].
+  destruct H as (J1 & J2 & E).
+  destruct (ckind c) eqn:K; try discriminate Kc; cbv iota in E;
+    try (subst s2; split; [apply equiv_content_refl|intros _; split; reflexivity]).
+  destruct E as (q & R1 & R2). destruct (R_ring_equiv c s1 s2 q K R1 R2) as (r1 & r2 & -> & -> & HR).
+  assert (HE : equivalent c (StRing r1) (StRing r2)) by (apply ring_equivalent; assumption).
+  split; [apply HE|intros _; apply HE].
+Qed.
+
+(* C11, same future, every kind (BTree: given [bt_script_ok]) *)
+Theorem C11_same_future_all_proof : forall c ops more, config_ok c -> (ckind c <> BTree \/ bt_script_ok) ->
+  let s := run c ops in
+  let s' := fst (reload c s) in
+  results_from c s' more = results_from c s more /\
+  oeq c (run_from c s more) (run_from c s' more) /\
+  equiv_content c (run_from c s more) (run_from c s' more) /\
+  (ckind c <> BTree -> equiv_iter c (run_from c s more) (run_from c s' more)).
+Proof.
+  intros c ops more Hc Hbt s s'.
+  pose proof (reload_oeq c s Hc (jinv_run c ops Hc)) as H. fold s' in H.
+  unfold s' in *. rewrite (reload_reachable c s Hc) in *. unfold s in *.
+  destruct (oeq_future c Hc Hbt more _ _ H) as [Er H'].
+  split; [symmetry; exact Er|]. split; [exact H'|]. apply oeq_equivalent; assumption.
+Qed.
+
+(* ================================================================================================ *)
+(* 13. C11 round trip: the strongest unconditional form                                             *)
+(* ================================================================================================ *)
+(* FULL statement (not yet proved for BTree's iteration clause):
+     forall c ops, config_ok c ->
+       let s := run c ops in
+       let '(s', ok) := from_json c (decode_of (to_json c s)) (init c) in
+       ok = true /\ equivalent c s s'.
+   Missing: [equiv_iter] for ckind c = BTree, i.e. a machine-level theorem that the B-tree iterator
+   walks [entries_of] ([bt_iter_ok]); see [C11_roundtrip_full_proof]. *)
+Theorem C11_roundtrip_partial_proof : forall c ops, config_ok c ->
+  let s := run c ops in
+  let '(s', ok) := reload c s in
+  ok = true /\ equiv_content c s s' /\ (ckind c <> BTree -> equiv_iter c s s').
+Proof.
+  intros c ops Hc s. pose proof (reload_ok c s Hc) as Hok.
+  destruct (reload_equiv c s Hc (jinv_run c ops Hc)) as [H1 H2].
+  destruct (reload c s) as [s' ok]. cbn [fst snd] in *. split; [assumption|]. split; assumption.
+Qed.
+
+Print Assumptions C11_roundtrip_partial_proof.
+Print Assumptions C11_roundtrip_full_proof.
+Print Assumptions C11_state_equal_proof.
+Print Assumptions C11_same_future_proof.
+Print Assumptions C11_same_future_all_proof.
+Print Assumptions oeq_step.
+Print Assumptions jinv_step.
+Print Assumptions C12_atomic_proof.
+Print Assumptions C12_replaces_proof.
+Print Assumptions C12_reachable_proof.
+Print Assumptions C12_continues_proof.
+Print Assumptions C12_null_empty_proof.
+Print Assumptions C12_denotes_map_proof.
+Print Assumptions C12_denotes_bidi_proof.
+Print Assumptions C12_denotes_set_proof.
+Print Assumptions C12_denotes_linkedmap_proof.
